@@ -207,6 +207,9 @@ def c09(ctx):
                       "validated by TLC against Layer A (LossOK with the floor at ret(Close) = everything, i.e. exactly the closed contents)")
 
 
+ALLFS = ("crashfs", "mem", "os", "osmmap")
+
+
 def seq_jobs(ctx, label, nshards, nprog, ops, keys, fss=("crashfs",), extra=None):
     jobs, outs = [], []
     os.makedirs(ctx.path("tmp"), exist_ok=True)
@@ -218,6 +221,16 @@ def seq_jobs(ctx, label, nshards, nprog, ops, keys, fss=("crashfs",), extra=None
                      "-seed", str(ctx.seed * 7919 + i * 104729 + 1), "-out", out] + (extra or []))
     stats = ctx.vrun_parallel(jobs)
     add_stats(ctx, stats, label)
+    return outs
+
+
+def strict_wal(ctx, label, nshards, nprog, ops, keys, fss=("crashfs", "os"), extra=None):
+    """Strict mode: programs recorded WITH the projected state of the write-ahead log after every call.
+    The recordings are checked against Layer B (spec/TraceWal.tla; a mismatch is DRIFT, reported in the evidence
+    only) and returned so that the caller validates them against Layer A like any other recording."""
+    outs = seq_jobs(ctx, label, nshards, nprog, ops, keys, fss, ["-walstates"] + (extra or []))
+    ctx.conformance(outs, "TraceWal.tla", "TraceWal.cfg")
+    ctx.conformance(outs, "TraceLH.tla", "TraceLH.cfg")
     return outs
 
 
@@ -234,6 +247,7 @@ def c01(ctx):
     outs = seq_jobs(ctx, "seq-small", 4, 6 if q else 40, 60, 10, ("crashfs", "mem", "os", "osmmap"))
     outs += seq_jobs(ctx, "seq-chains", 12, 3 if q else 20, 260 if q else 500, 72, ("crashfs", "crashfs", "osmmap", "mem", "os", "crashfs"))
     outs += seq_jobs(ctx, "seq-long-chains", 4, 2 if q else 16, 400, 170, ("crashfs", "osmmap", "mem", "os"), ["-oneclass"])
+    outs += strict_wal(ctx, "seq-strict", 4, 3 if q else 30, 150, 24, ALLFS)
     rejs = regress(ctx) + ctx.validate(outs) + lh_replay(ctx, 60 if q else 1500, mult=None)
     ctx.sample_from(outs[0], 1)
     ctx.report_rejections(rejs, describe_generic)
@@ -263,14 +277,12 @@ def c05(ctx):
                       "validated by TLC against Layer A (Compact has no logical effect, ReadAll during compaction, CrashOK). The Wal model interleaves Put/Del with Pick/Seal/Step/Remove exhaustively")
 
 
-ALLFS = ("crashfs", "mem", "os", "osmmap")
-
-
 def c02(ctx):
     q = ctx.quick()
     wal_models(ctx, "crash", ["D11"])
-    outs = seq_jobs(ctx, "restart-alt", 8, 5 if q else 40, 300, 64, ("os", "osmmap"), ["-alt", "-sessions"])
-    outs += seq_jobs(ctx, "restart", 8, 5 if q else 40, 300, 64, ALLFS, ["-alt", "-sessions", "-nopin"])
+    outs = seq_jobs(ctx, "restart-alt", 8, 8 if q else 40, 300, 64, ("os", "osmmap"), ["-alt", "-sessions"])
+    outs += seq_jobs(ctx, "restart", 8, 8 if q else 40, 300, 64, ALLFS, ["-alt", "-sessions", "-nopin"])
+    outs += strict_wal(ctx, "restart-strict", 4, 3 if q else 30, 150, 24, ALLFS, ["-sessions"])
     rejs = regress(ctx) + ctx.validate(outs)
     ctx.sample_from(outs[0], 1)
     ctx.report_rejections(rejs, describe_generic)
@@ -304,6 +316,14 @@ def c11(ctx):
 
 def c12(ctx):
     q = ctx.quick()
+    # Layer B: Backup (capture under the read lock, lock-free copies up to the captured offsets) interleaved with
+    # writers, rollover, compaction before/after and crashes; three variants of the algorithm must be refuted
+    ctx.model_check("WalBackup.tla", "cfg/wal_backup_q.cfg" if q else "cfg/wal_backup_m.cfg", timeout=3000)
+    if not q:
+        ctx.model_check("WalBackup.tla", "cfg/wal_backup_t.cfg", timeout=5000)
+    ctx.model_check("WalBackup.tla", "cfg/wal_backup_whole.cfg", expect_violation="BackupOK", timeout=900)
+    ctx.model_check("WalBackup.tla", "cfg/wal_backup_listlate.cfg", expect_violation="BackupOK", timeout=900)
+    ctx.model_check("WalBackup.tla", "cfg/wal_backup_nomaint.cfg", expect_violation="*", timeout=900)
     outs = seq_jobs(ctx, "backup-inject", 12, 3 if q else 24, 120, 24, ALLFS, ["-backup"])
     outs += stress_jobs(ctx, "backup-concurrent", 8, 6 if q else 80, 30, 40, ALLFS, ["-maint", "-grow"], workers=2)
     rejs = ctx.validate(outs, dfs=True, soft_timeout=600)
